@@ -7,7 +7,9 @@
 //   valsweep instants <t0> <t1> <stride>     every public operation on instants t0, t0+stride, .. < t1 and boundaries
 //   valsweep components                      boundary/sampled component tuples, error values, strings
 //   valsweep anyarg                          every accessor on any component values (no precondition), sanitizers decide
+//   valsweep lookups                         any name / id / index on the shipped and on small registries (alarm against hangs)
 #include "drv_common.h"
+#include <unistd.h>
 #include <ace_time/common/DateStrings.h>
 using namespace ace_time;
 
@@ -276,7 +278,42 @@ static int anyarg(bool want_valid) {
   return 0;
 }
 
+// lookups by any name, id and index on the shipped registries and on small registries: no crash, no hang (an alarm ends the
+// process), no read outside the registry (the sanitizer reports it), not-found for everything absent
+template <typename MGR, typename ZI>
+static void lookups_on(const ZI* const* reg, uint16_t n, int tag) {
+  MGR mgr(n, reg);
+  static const char* names[] = {"", "0", "+01:00", "-", "A", "AAA", "Africa", "Africa/", "Africa/Aaa", "Africa/Abidja", "Africa/Abidjan ", "Africa/Abidjao",
+      "America/Zzz", "Asia/Aaa", "Europe/Zurich0", "Europe/Zuricg", "Pacific/Zzz", "UTB", "US/Pacific-Nes", "WES", "WET ", "WEU", "Zulu", "zzz", "~", "\x7f\x7f", "\xc3\xa9", "a"};
+  for (const char* nm : names) {
+    TimeZone tz = mgr.createForZoneName(nm);
+    nops++;
+    bool present = false;
+    for (uint16_t i = 0; i < n; i++) { TimeZone t2 = mgr.createForZoneIndex(i); Print p; t2.printTo(p); if (p.buf == nm) present = true; }
+    if (!present && !tz.isError()) fail("createForZoneName of an absent name is not the error zone", tag, (long) strlen(nm), 0);
+    if (mgr.indexForZoneName(nm) != 0xffff && !present) fail("indexForZoneName of an absent name is not kInvalidIndex", tag, (long) strlen(nm), 0);
+  }
+  static const uint32_t ids[] = {0, 1, 0x7fffffff, 0x80000000u, 0xffffffffu, 5381};
+  for (uint32_t id : ids) { TimeZone tz = mgr.createForZoneId(id); nops++; if (!tz.isError() && tz.getZoneId() != id) fail("createForZoneId returns another zone", tag, (long) id, 0); sink += mgr.indexForZoneId(id); }
+  for (long ix : {(long) n, (long) n + 1, 255L, 256L, 32767L, 65534L, 65535L}) { TimeZone tz = mgr.createForZoneIndex((uint16_t) ix); nops++; if (ix >= n && !tz.isError()) fail("createForZoneIndex beyond the registry is not the error zone", tag, ix, 0); }
+}
+
+static int lookups() {
+  alarm(60);
+  lookups_on<BasicZoneManager<2>, basic::ZoneInfo>(zonedb::kZoneRegistry, zonedb::kZoneRegistrySize, 0);
+  lookups_on<ExtendedZoneManager<2>, extended::ZoneInfo>(zonedbx::kZoneRegistry, zonedbx::kZoneRegistrySize, 1);
+  // registries of sizes 0..9 (below and above the size at which the registrar switches to binary search), starting at
+  // several positions of the sorted shipped registry
+  for (uint16_t n = 0; n <= 9; n++) for (uint16_t start : {(uint16_t) 0, (uint16_t) 100, (uint16_t) (zonedb::kZoneRegistrySize - n)}) {
+    lookups_on<BasicZoneManager<2>, basic::ZoneInfo>(zonedb::kZoneRegistry + start, n, 100 + n);
+    lookups_on<ExtendedZoneManager<2>, extended::ZoneInfo>(zonedbx::kZoneRegistry + start, n, 200 + n);
+  }
+  printf("{\"done\":1,\"nops\":%ld,\"nfail\":%ld}\n", nops, nfail);
+  return 0;
+}
+
 int main(int argc, char** argv) {
+  if (argc >= 2 && !strcmp(argv[1], "lookups")) return lookups();
   if (argc >= 3 && !strcmp(argv[1], "anyarg")) return anyarg(!strcmp(argv[2], "valid"));
   if (argc >= 5 && !strcmp(argv[1], "instants")) return instants(atol(argv[2]), atol(argv[3]), atol(argv[4]));
   if (argc >= 2 && !strcmp(argv[1], "components")) return components();
